@@ -7,12 +7,11 @@
    or antiparallel edges the number it reports is the number of crossings of that order; for arbitrary
    multigraphs it is the crossing number of the de-duplicated edge set; (2) every size-aware positioner keeps the
    order: for positions i < j of a band, x_i + w_i + spacing <= x_j, so ordering by x is ordering by position.
-   C12_partial: that the number sent to the monitor was computed on the order that is finally installed
-   (WMedian's best-so-far bookkeeping over its 2 x 24 iterations) is NOT proved: the heuristic is not modelled.
-   It is checked per instance: the model's counter evaluated on the observed final order must equal every value
-   the monitor received (code 1300 of the correspondence), on every traced case. *)
+   (3) the number sent to the monitor belongs to the order that is finally installed: proved on the functional
+   model of the whole heuristic (Model/Wmedian.v, Proofs/WmedianProofs.v); that model is tied to the code by the
+   deep correspondence (order, positions and reported number of every traced case, codes 15xx/1500). *)
 From Coq Require Import List ZArith QArith.
-From Autog Require Import Graph Phase3 Phase4 CrossCount CrossCountProofs Positioners SinkColoringProofs.
+From Autog Require Import Graph Phase3 Phase4 CrossCount Wmedian CrossCountProofs WmedianProofs Positioners SinkColoringProofs.
 Import ListNotations.
 
 (* the accumulator tree counts inversions, for every target sequence within range *)
@@ -60,3 +59,18 @@ Theorem C12_sink_coloring_keeps_order : forall s g g' l i j a b,
   (nX g' a + nW g a + s <= nX g' b)%Q.
 Proof. exact sink_coloring_no_overlap. Qed.
 Print Assumptions C12_sink_coloring_keeps_order.
+
+(* the number sent to the monitor is the crossing number of the order that is finally installed: the functional
+   model of the whole heuristic (both runs, 24 iterations each, best-so-far bookkeeping) keeps the layers
+   permutations of themselves with positions 0..len-1 and returns the count of the installed order *)
+Theorem C12_reported_number_belongs_to_installed_order : forall maxiter g g' x,
+  layered g -> exec_wmedian maxiter g = Ok (g', x) -> order_contract g g' /\ x = reported_crossings g'.
+Proof. exact exec_wmedian_contract. Qed.
+Print Assumptions C12_reported_number_belongs_to_installed_order.
+
+(* and for graphs without parallel or antiparallel edges it is the crossing number of the drawing *)
+Theorem C12_reported_number_is_the_drawing : forall maxiter g g' x,
+  layered g -> simple_edges g -> exec_wmedian maxiter g = Ok (g', x) ->
+  ordered_proper g' /\ x = drawing_crossings g'.
+Proof. exact exec_wmedian_drawing. Qed.
+Print Assumptions C12_reported_number_is_the_drawing.
